@@ -1,6 +1,7 @@
 package main
 
 import (
+	"go/constant"
 	"go/token"
 	"go/types"
 	"strings"
@@ -215,6 +216,147 @@ func registerModels(e *Engine) {
 	for _, n := range []string{"(*sync.WaitGroup).Add", "(*sync.WaitGroup).Done", "(*sync.WaitGroup).Wait", "(*time.Ticker).Stop", "(*time.Timer).Stop", "time.NewTicker", "time.NewTimer", "time.After", "time.Sleep"} {
 		e.models[n] = noop
 	}
+	// fmt.Sprintf with a constant format: the result satisfies the literal predicate P of the contract (`literals P`)
+	// when the format is a literal and every %s / %v / %q operand is a string satisfying P (integers under %d are digits).
+	e.models["fmt.Sprintf"] = &funcModel{f: func(ft *FT, st *State, guard Term, c *ssa.CallCommon, args []Term, pos token.Pos) []Term {
+		r := ft.fresh("sprintf", "Str")
+		if ft.con == nil || ft.con.LitPred == "" || len(c.Args) < 2 {
+			return []Term{r}
+		}
+		fc, ok := c.Args[0].(*ssa.Const)
+		if !ok || fc.Value == nil {
+			return []Term{r}
+		}
+		ops, ok := variadicOperands(c.Args[1])
+		if !ok {
+			return []Term{r}
+		}
+		sf := ft.eng.cons.Specs[ft.con.LitPred]
+		if sf == nil {
+			return []Term{r}
+		}
+		pred := q("spec!" + sf.PkgName + "." + sf.Name)
+		ft.d.fun("spec!"+sf.PkgName+"."+sf.Name, []Sort{"Str"}, "Bool")
+		format := constant.StringVal(fc.Value)
+		var conds []Term
+		k := 0
+		okAll := true
+		for i := 0; i < len(format); i++ {
+			if format[i] != '%' {
+				continue
+			}
+			i++
+			if i >= len(format) {
+				okAll = false
+				break
+			}
+			if format[i] == '%' {
+				continue
+			}
+			for i < len(format) && strings.ContainsRune("+-# 0123456789.", rune(format[i])) {
+				i++
+			}
+			if i >= len(format) || k >= len(ops) {
+				okAll = false
+				break
+			}
+			verb := format[i]
+			op := ops[k]
+			k++
+			switch {
+			case verb == 'd' && isInt(op.Type()):
+				// digits (and a sign)
+			case (verb == 's' || verb == 'v') && isString(op.Type()):
+				conds = append(conds, app(pred, ft.val(op)))
+			default:
+				okAll = false
+			}
+		}
+		if okAll && k == len(ops) {
+			ft.litFact(ft.d.strLit(format))
+			ft.assume(guard, implies(and(conds...), app(pred, r)))
+			ft.note("fmt.Sprintf with a literal format preserves the literal predicate of its string operands (digits for %d)")
+		}
+		return []Term{r}
+	}}
+	// fmt.Fprintf into a *strings.Builder with a literal format: like Sprintf, accumulated in the ghost bsafe(builder)
+	e.models["fmt.Fprintf"] = &funcModel{
+		wc: func(ft *FT, c *ssa.CallCommon) []string {
+			if sf := ft.eng.cons.Specs["bsafe"]; sf != nil && sf.Ghost {
+				ft.keySort("G!bsafe", arraySort("Int", "Bool"))
+				return []string{"G!bsafe"}
+			}
+			return nil
+		},
+		f: func(ft *FT, st *State, guard Term, c *ssa.CallCommon, args []Term, pos token.Pos) []Term {
+			sig := c.Signature()
+			var rs []Term
+			for i := 0; i < sig.Results().Len(); i++ {
+				rt := sig.Results().At(i).Type()
+				r := ft.fresh("fprintf", ft.d.sortOf(rt))
+				rs = append(rs, r)
+			}
+			sf := ft.eng.cons.Specs["bsafe"]
+			if sf == nil || !sf.Ghost || len(c.Args) < 3 {
+				return rs
+			}
+			ft.keySort("G!bsafe", arraySort("Int", "Bool"))
+			// the writer operand: MakeInterface(*strings.Builder)
+			mi, ok := c.Args[0].(*ssa.MakeInterface)
+			if !ok || types.TypeString(mi.X.Type(), nil) != "*strings.Builder" {
+				return rs
+			}
+			b := ft.val(mi.X)
+			cur := ft.get(st, "G!bsafe")
+			okv := ft.fresh("fpsafe", "Bool")
+			ft.set(st, "G!bsafe", app("store", cur, b, and(app("select", cur, b), okv)))
+			fc, isC := c.Args[1].(*ssa.Const)
+			ops, okOps := variadicOperands(c.Args[2])
+			pf := ft.eng.cons.Specs["safe"]
+			if !isC || fc.Value == nil || !okOps || pf == nil || ft.con == nil || ft.con.LitPred != "safe" {
+				ft.assume(guard, not(okv))
+				return rs
+			}
+			pred := q("spec!" + pf.PkgName + "." + pf.Name)
+			ft.d.fun("spec!"+pf.PkgName+"."+pf.Name, []Sort{"Str"}, "Bool")
+			format := constant.StringVal(fc.Value)
+			var conds []Term
+			k := 0
+			okAll := true
+			for i := 0; i < len(format); i++ {
+				if format[i] != '%' {
+					continue
+				}
+				i++
+				if i >= len(format) {
+					okAll = false
+					break
+				}
+				if format[i] == '%' {
+					continue
+				}
+				if k >= len(ops) {
+					okAll = false
+					break
+				}
+				op := ops[k]
+				k++
+				switch {
+				case format[i] == 'd' && isInt(op.Type()):
+				case (format[i] == 's' || format[i] == 'v') && isString(op.Type()):
+					conds = append(conds, app(pred, ft.val(op)))
+				default:
+					okAll = false
+				}
+			}
+			if okAll && k == len(ops) {
+				ft.assume(guard, eq(okv, and(conds...)))
+			} else {
+				ft.assume(guard, not(okv))
+			}
+			return rs
+		},
+	}
 	// time: ghost monotone clock in nanoseconds
 	e.models["time.Now"] = &funcModel{
 		w: func(ft *FT) []string { ft.keySort("$clock", "Int"); return []string{"$clock"} },
@@ -423,4 +565,52 @@ func (ft *FT) guardedExternal(m *Monitor, fa *ssa.FieldAddr, write bool, pos tok
 	}
 	goal = or(app(">=", ft.val(fa.X), ft.get(ft.entry, "$next")), goal)
 	ft.oblige("guarded-by", pos, "", guard, goal, true)
+}
+
+// variadicOperands recovers the operands packaged into the variadic slice of a call (new [n]T; stores; slice).
+func variadicOperands(v ssa.Value) ([]ssa.Value, bool) {
+	if c, ok := v.(*ssa.Const); ok && c.Value == nil {
+		return nil, true // nil slice: no operands
+	}
+	sl, ok := v.(*ssa.Slice)
+	if !ok {
+		return nil, false
+	}
+	al, ok := sl.X.(*ssa.Alloc)
+	if !ok || al.Referrers() == nil {
+		return nil, false
+	}
+	at, ok := deref(al.Type()).Underlying().(*types.Array)
+	if !ok {
+		return nil, false
+	}
+	ops := make([]ssa.Value, at.Len())
+	for _, r := range *al.Referrers() {
+		ia, ok := r.(*ssa.IndexAddr)
+		if !ok {
+			continue
+		}
+		ic, ok := ia.Index.(*ssa.Const)
+		if !ok || ia.Referrers() == nil {
+			return nil, false
+		}
+		idx, _ := constant.Int64Val(ic.Value)
+		for _, r2 := range *ia.Referrers() {
+			if st, ok := r2.(*ssa.Store); ok {
+				val := st.Val
+				if mi, ok := val.(*ssa.MakeInterface); ok {
+					val = mi.X
+				}
+				if idx >= 0 && int(idx) < len(ops) {
+					ops[idx] = val
+				}
+			}
+		}
+	}
+	for _, o := range ops {
+		if o == nil {
+			return nil, false
+		}
+	}
+	return ops, true
 }
